@@ -24,6 +24,7 @@ import (
 	"errors"
 	"fmt"
 	"os"
+	"runtime"
 	"sort"
 	"strconv"
 	"strings"
@@ -1220,6 +1221,22 @@ func dkgrunEngine(_ []string, in *bufio.Scanner, out *bufio.Writer) {
 			continue
 		}
 		var js []byte
+		// an op that does not return is a wedged process: say where, instead of hanging the check
+		opDone := make(chan struct{})
+		go func(line string) {
+			select {
+			case <-opDone:
+			case <-time.After(240 * time.Second):
+				buf := make([]byte, 1<<22)
+				n := runtime.Stack(buf, true)
+				fmt.Fprintf(os.Stderr, "dkgrun: op did not return within 240 s: %s\n%s\n", line, buf[:n])
+				b, _ := json.Marshal(map[string]any{"error": "op-timeout", "line": line})
+				out.Write(b)
+				out.WriteByte('\n')
+				out.Flush()
+				os.Exit(3)
+			}
+		}(in.Text())
 		r := safely(func() string {
 			var v any
 			switch f[0] {
@@ -1261,6 +1278,7 @@ func dkgrunEngine(_ []string, in *bufio.Scanner, out *bufio.Writer) {
 			js = b
 			return ""
 		})
+		close(opDone)
 		if r != "" {
 			js, _ = json.Marshal(map[string]any{"error": r})
 		}
